@@ -41,7 +41,14 @@ def run_shard(prop, tier, seed, shard, nshards, replay_case=None):
         if replay_case is not None:
             driver.replay(ctx, replay_case)
         else:
-            driver.run(ctx)
+            try:
+                driver.run(ctx)
+            except Exception:
+                # what the monitors had seen until then still counts (a violation stays a violation); the part of the
+                # workload that did not run makes the shard inconclusive, never silent
+                import traceback
+
+                ctx.inconclusive_because("shard %d of %d stopped early: %s" % (shard, nshards, traceback.format_exc()[-1200:]))
     finally:
         shutil.rmtree(ctx.tmp, ignore_errors=True)
     res = ctx.result()
